@@ -29,6 +29,7 @@ LEVEL_TEXT = (
     "Sampled, not exhaustive."
     ' A reader part builds CSV and NetCDF readers through add_command with DataType as a name or a type object and compares outcome and results of the built and the reloaded program; long lists and strings (beyond 100 characters) and numeric metadata values are generated.'
 )
+LEVEL_TEXT += ' Added later: carriage returns in strings and metadata keys tools give a meaning to; the model part also builds twin programs from shared Argument objects, the other one run first.'
 LEVEL_NOTE = "Values are compared after cleaning with the parameter's own cleaner (references by result name, NaN-aware, int/float kind preserved)."
 RULE = (
     "Cases: {build: source|api, commands: [Kinds(...) with typed hostile values]} and typed EEMS models. Oracle: "
